@@ -95,6 +95,11 @@ class BlockAbort(Exception):
     """Raised by the harness inside a transaction block to abort it."""
 
 
+class BlockAbortBase(BaseException):
+    """Same, but not an Exception subclass (as KeyboardInterrupt, SystemExit or
+    GeneratorExit are): a block must roll back for these too."""
+
+
 def exc_name(exc):
     return type(exc).__name__
 
@@ -105,7 +110,7 @@ def run_op(target, op, ctx=None):
         return ('ok', _do(target, op, ctx))
     except (Killed, Aborted):
         raise
-    except BlockAbort:
+    except (BlockAbort, BlockAbortBase):
         raise
     except Exception as exc:  # noqa
         name = exc_name(exc)
@@ -251,14 +256,15 @@ def _txn(c, op, ctx):
     kw = {}
     if 'retry' in op:
         kw['retry'] = op['retry']
+    exc_type = BlockAbortBase if op.get('raise_kind') == 'base' else BlockAbort
     try:
         with c.transact(**kw):
             for i, sub in enumerate(body):
                 if raise_at is not None and i == raise_at:
-                    raise BlockAbort()
+                    raise exc_type()
                 results.append(run_op(c, sub, ctx))
             if raise_at is not None and raise_at >= len(body):
-                raise BlockAbort()
-    except BlockAbort:
+                raise exc_type()
+    except (BlockAbort, BlockAbortBase):
         return 'abort:' + json.dumps(results)
     return 'commit:' + json.dumps(results)
